@@ -386,6 +386,29 @@ def _helpers():
                 bad.append('as_promoted_dtype on structures')
             if not ft.is_leaf(jnp.ones(2)) or ft.is_leaf({'a': 1}) or ft.is_leaf([jnp.ones(2)]):
                 bad.append('is_leaf')
+            # the common dtype is the one JAX itself would choose (weakly typed leaves and Python scalars do not widen the others)
+            from furax.landscapes import StokesPyTree
+            for name, tree in (('weak float + float16', {'a': jnp.asarray(2.0), 'b': jnp.ones(3, jnp.float16)}),
+                               ('int8 + weak int', [jnp.ones(3, jnp.int8), jnp.asarray(2)]),
+                               ('Python float + float16', (1.0, jnp.ones(2, jnp.float16))),
+                               ('float16 + float32 + weak', [jnp.ones(2, jnp.float16), jnp.ones(2, jnp.float32), jnp.asarray(1.0)]),
+                               ('int32 + float16', [jnp.ones(2, jnp.int32), jnp.ones(2, jnp.float16)])):
+                want = jnp.result_type(*jax.tree.leaves(tree))
+                try:
+                    got = ft.as_promoted_dtype(tree)
+                    if jax.tree.structure(got) != jax.tree.structure(tree) or any(np.dtype(l.dtype) != np.dtype(want) for l in jax.tree.leaves(got)):
+                        bad.append(f'as_promoted_dtype({name}) gives {[str(l.dtype) for l in jax.tree.leaves(got)]}, JAX promotes to {want}')
+                except Exception as ex:  # noqa: BLE001
+                    bad.append(f'as_promoted_dtype({name}) raises {type(ex).__name__}')
+            try:
+                t = StokesPyTree.from_stokes(jnp.ones(2, jnp.float16), jnp.asarray(0.5))
+                if any(l.dtype != jnp.float16 for l in jax.tree.leaves(t)):
+                    bad.append(f'from_stokes(float16 array, weak scalar) gives {[str(l.dtype) for l in jax.tree.leaves(t)]}')
+                t = StokesPyTree.from_stokes(1., 2., 3.)
+                if type(t).__name__ != 'StokesIQUPyTree':
+                    bad.append('from_stokes of Python scalars')
+            except Exception as ex:  # noqa: BLE001
+                bad.append(f'from_stokes with weak / Python scalars raises {type(ex).__name__}')
         if x64:
             go()
         else:
